@@ -473,9 +473,12 @@ def c05_length(R):
         construct="If length",
     )
     ab = tree.func(Z3, "BackendZ3._abstract_internal")
-    txt = ast.unparse(ab)
+    Fab = util.Frags(ab)
     R.check(
-        "length = z3.Z3_get_bv_sort_size(ctx, z3_sort)" in txt and "result_ty(op_name, tuple(args), length=length)" in txt,
+        Fab.has("z3_sort = z3.Z3_get_sort(ctx, ast)")
+        and Fab.has("op_name = op_map[z3_op_nums[decl_num]]")
+        and Fab.has("a = result_ty(op_name, tuple(args), length=length)")  # fixes which local is the width
+        and Fab.has("length = z3.Z3_get_bv_sort_size(ctx, z3_sort)"),
         tree.mod(Z3),
         ab,
         "Z3 abstraction takes the width from the Z3 sort",
